@@ -214,7 +214,7 @@ func verifRestarts(steps, holds, extraFails, errOnly int, push bool) {
 
 // VerifC14_Restarts: restart clauses of C14, <= 6 stimuli, one call held in flight at most.
 //
-//verif:opts sched=8
+//verif:opts sched=8 replay=engine
 func VerifC14_Restarts() { verifRestarts(6, 1, 0, 1, true) }
 
 // VerifC14_RestartsDeep: <= 9 stimuli with the budgets of the quick harness.
@@ -243,7 +243,7 @@ const (
 // VerifC14_Timeouts: accept / complete timeouts close the channel exactly when the awaited event
 // did not arrive before the timer fired; never when disabled; never after the monitor shut down.
 //
-//verif:opts sched=8
+//verif:opts sched=8 replay=engine
 func VerifC14_Timeouts() {
 	verifReset()
 	chid := verifChid()
@@ -691,4 +691,59 @@ func VerifC14_RestartRaces() {
 		zz.Assert(d.fails > 0, "only failures can exhaust a bound of two or more with two requests")
 	}
 	_ = m
+}
+
+// VerifC14_SecondTriggerDuringClose: the close of the channel is itself slow (it talks to the
+// peer). While the first close is still in flight a SECOND reason to fail the channel arrives
+// (the other timeout expires, or a restart fails persistently). The channel must still be closed
+// with an error at most once in total, and the monitor must already have shut down (unsubscribed)
+// when the first close started.
+//
+//verif:opts sched=8 replay=engine
+func VerifC14_SecondTriggerDuringClose() {
+	verifReset()
+	self := peer.ID("self")
+	chid := verifChid()
+	d := verifNewMgr(chid, self)
+	d.max = 1
+	d.failsLeft = 3
+	d.holdClose = true
+	cfg := &Config{
+		MaxConsecutiveRestarts: 1,
+		RestartDebounce:        verifTimeout,
+		AcceptTimeout:          verifTimeout,
+		CompleteTimeout:        verifTimeout,
+		OnRestartComplete:      d.onRestartComplete,
+	}
+	m := NewMonitor(d, cfg)
+	mc := m.AddPullChannel(chid)
+	zz.Assert(mc != nil && d.subscribes == 1, "monitoring enabled")
+	sub := d.firstSub
+	// the initiator finished: the complete timer runs next to the accept timer
+	d.verifDeliver(datatransfer.FinishTransfer, chid, datatransfer.TransferFinished)
+	zz.Settle()
+	// first reason: one of the two timers expires -> close (held in flight)
+	fired := verifFireN(1)
+	zz.Settle()
+	zz.Assert(fired, "a timer was live")
+	zz.Assert(d.closes == 1 && d.closeHeld, "the first timeout closes the channel; the close is in flight")
+	zz.Assert(d.unsubs == 1, "the monitor shut down before it started closing")
+	// second reason while the close is in flight
+	switch zz.Choice("second", 2) {
+	case 0:
+		verifFireN(1) // the other timer, if it is still live
+		zz.Reach("second timeout during the close")
+	case 1:
+		// an error event that was already being published when the monitor unsubscribed
+		sub(datatransfer.Event{Code: datatransfer.SendDataError}, verifChanState{chid: chid, status: datatransfer.Ongoing})
+		zz.Settle()
+		verifDebounceFlush(0)
+		zz.Reach("restart failure during the close")
+	}
+	zz.Settle()
+	zz.Assert(d.closes == 1, "closed with an error at most once in total")
+	d.verifRelease()
+	zz.Settle()
+	zz.Assert(d.closes == 1 && !d.closeHeld, "still exactly one close after the first one returned")
+	zz.Assert(d.unsubs == 1, "unsubscribed exactly once")
 }
